@@ -40,6 +40,34 @@ def apply_edits(root, edits):
     return None
 
 
+def apply_patch(root, patch):
+    import subprocess
+    p = subprocess.run(['patch', '-p1', '-s', '-d', root, '-i', patch], stdout=subprocess.PIPE, stderr=subprocess.STDOUT)
+    if p.returncode:
+        return 'patch no longer applies: %s' % p.stdout.decode(errors='replace')[-200:]
+    return None
+
+
+def seeded_mutations(pid):
+    """independently written breaking changes kept under /verif/seeded (sub-agents saw only the property text):
+    those that property `pid` is recorded to catch become fault mutations of its matrix"""
+    import glob
+    import json
+    out = []
+    base = os.path.join(os.path.dirname(os.path.dirname(os.path.abspath(__file__))), 'seeded')
+    for mf in sorted(glob.glob(os.path.join(base, '*', 'meta.json'))):
+        try:
+            meta = json.load(open(mf))
+        except (OSError, ValueError):
+            continue
+        d = os.path.dirname(mf)
+        if pid in meta.get('caught_by', []):
+            out.append({'id': 'seeded:' + os.path.basename(d), 'kind': 'fault', 'rule': None, 'patch': os.path.join(d, 'patch.diff'), 'edits': []})
+        elif pid in meta.get('refused_by', []):
+            out.append({'id': 'seeded:' + os.path.basename(d), 'kind': 'fault', 'rule': None, 'patch': os.path.join(d, 'patch.diff'), 'edits': [], 'accept_undecided': True})
+    return out
+
+
 def analyse(pid, repo, tier='quick'):
     """run the rules of one property on `repo`; returns the Report (not finished, nothing printed)"""
     rep = report.Report(pid, tier, 0)
@@ -68,7 +96,7 @@ def verdicts(rep):
 def run_mutation(pid, mut, repo):
     d = scratch_copy(repo)
     try:
-        why = apply_edits(d, mut['edits'])
+        why = apply_patch(d, mut['patch']) if mut.get('patch') else apply_edits(d, mut['edits'])
         if why:
             return {'id': mut['id'], 'status': 'skipped', 'why': why}
         # the variant must still compile with the project's flags
@@ -101,6 +129,7 @@ def baseline_violations(pid, repo):
 
 def run_matrix(pid, repo, muts, workers=4):
     from concurrent.futures import ThreadPoolExecutor
+    muts = list(muts) + seeded_mutations(pid)
     base = baseline_violations(pid, repo)
     results = []
     with ThreadPoolExecutor(max_workers=workers) as ex:
